@@ -116,7 +116,14 @@ class TStruct(CType):
     def fields(self):
         return self.tu.record_fields(self.name)
 
+    @property
+    def is_union(self):
+        r = self.tu.records.get(self.name)
+        return r is not None and r.get('tagUsed') == 'union'
+
     def field(self, fname):
+        if fname == '$blob':
+            return TInt(64, False, 'unsigned long')
         for n, t in self.fields:
             if n == fname:
                 return t
@@ -245,6 +252,11 @@ class TU:
 
     def _parse_type(self, s):
         s = s.strip()
+        m0 = re.match(r'^(?:const\s+|volatile\s+)*(enum|struct|union)\s+(?:\w+::)*\((?:unnamed|anonymous)[^)]*\)\s*$', s)
+        if m0:
+            if m0.group(1) == 'enum':
+                return TInt(32, False, 'unsigned int')
+            return self._anon_record(s)
         # function pointer / function types
         if '(*' in s or re.search(r'\)\s*\(', s) or (s.endswith(')') and '(' in s):
             if '(*' in s:
